@@ -60,7 +60,7 @@ def is_signed_source(arm_or_body, field):
 
 def r1_binary(run, F):
     g = F.body(GEN_EXPR)
-    m = [x for x in hirq.matches(g["hir"]) if len(x["arms"]) > 12][0]
+    m = [x for x in hirq.matches(g["hir"]) if hirq.n_alts(x) > 12][0]
     barm = hirq.arm_for(m, "Expression::Binary")
     run.require(barm, "Expression::Binary arm not found in the generator")
     om = [x for x in hirq.matches(barm[0]["body"]) if hirq.local_name_of(hirq.unwrap_trivial(x["scrut"])) == "op"]
@@ -98,7 +98,7 @@ def r1_binary(run, F):
 
 def r2_comparison(run, F):
     g = F.body(GEN_CMP)
-    om = [x for x in hirq.matches(g["hir"]) if len(x["arms"]) >= 6]
+    om = [x for x in hirq.matches(g["hir"]) if hirq.n_alts(x) >= 6]
     run.require(om, "match self.op not found in Comparison::generate")
     rows = []
     for a in om[0]["arms"]:
@@ -183,7 +183,7 @@ def r4_signed(run, F):
 def r6_lowering(run, F):
     c06.r4_generator(run, F)
     s = F.body("<alpha::resolved::Statement as alpha::generator::Generatable>::generate")
-    m = [x for x in hirq.matches(s["hir"]) if len(x["arms"]) >= 6][0]
+    m = [x for x in hirq.matches(s["hir"]) if hirq.n_alts(x) >= 6][0]
     for variant, want in (("Goto", ["LLVMBuildBr"]), ("Label", ["LLVMBuildBr"])):
         arm = hirq.arm_for(m, "Statement::" + variant)
         calls = llvm_calls(arm[0]["body"]) if arm else []
